@@ -11,7 +11,8 @@ package centrifuge
 //   C  the connection's reader: connect command, subscribe c1 [, unsubscribe c1]
 //   X  Client.close(DisconnectForceNoReconnect)            (server-initiated disconnect)
 //   E  the transport handler's close function                (transport close)
-//   T  two presence ticks (Client.updatePresence, what the presence timer runs)
+//   T/T2  the presence timer expires (hand-fired ClientTimerScheduler)
+//   D  two presence ticks started directly (Client.updatePresence: a tick goroutine past its timer)
 //   U  Node.Unsubscribe of the server-side subscription s1 (or of c1); V: six of them at once
 //   S  Node.Shutdown
 //   N  a second connection on the same node sending its connect command
@@ -59,7 +60,8 @@ func (t *verifC08Transport) Unidirectional() bool             { return false }
 func (t *verifC08Transport) Emulation() bool                  { return false }
 func (t *verifC08Transport) DisabledPushFlags() uint64        { return 0 }
 func (t *verifC08Transport) PingPongConfig() PingPongConfig {
-	return PingPongConfig{PingInterval: 24 * time.Hour, PongTimeout: 12 * time.Hour}
+	// no application-level pings: the client's single timer is then armed for the presence tick
+	return PingPongConfig{PingInterval: -1, PongTimeout: -1}
 }
 func (t *verifC08Transport) Write(m []byte) error { return t.WriteMany(m) }
 func (t *verifC08Transport) WriteMany(ms ...[]byte) error {
@@ -75,6 +77,29 @@ func (t *verifC08Transport) Close(Disconnect) error {
 	t.closed = true
 	t.mu.Unlock()
 	return nil
+}
+
+// verifC08Sched is a hand-fired ClientTimerScheduler: the harness decides when a scheduled client
+// timer "expires".
+type verifC08Timer struct {
+	cb       func()
+	canceled bool
+	fired    bool
+}
+
+func (t *verifC08Timer) Cancel() { t.canceled = true }
+
+type verifC08Sched struct {
+	mu     sync.Mutex
+	timers []*verifC08Timer
+}
+
+func (ts *verifC08Sched) ScheduleTimer(d time.Duration, cb func()) TimerCanceler {
+	ts.mu.Lock()
+	defer ts.mu.Unlock()
+	t := &verifC08Timer{cb: cb}
+	ts.timers = append(ts.timers, t)
+	return t
 }
 
 // verifC08Broker gates PublishJoin: connectCmd publishes the join of a connect-time server-side
@@ -109,6 +134,7 @@ type verifC08Scn struct {
 	pres     bool
 	cprog    string
 	jl       bool
+	tsched   *verifC08Sched
 	wg       sync.WaitGroup
 	ended    map[string]chan struct{}
 }
@@ -144,7 +170,7 @@ func (s *verifC08Scn) setup(kv map[string]string) {
 	}
 	s.arrivals = make(chan string, 64)
 	s.ended = map[string]chan struct{}{}
-	for _, a := range []string{"C", "X", "E", "T", "U", "S", "N", "V"} {
+	for _, a := range []string{"C", "X", "E", "T", "T2", "D", "U", "S", "N", "V"} {
 		s.ended[a] = make(chan struct{})
 	}
 	s.free = make(chan struct{})
@@ -152,8 +178,9 @@ func (s *verifC08Scn) setup(kv map[string]string) {
 	s.pres = kv["pres"] == "1"
 	s.cprog = kv["cprog"]
 	s.jl = kv["jl"] == "1"
+	s.tsched = &verifC08Sched{}
 	node, err := New(Config{LogLevel: LogLevelNone, ClientStaleCloseDelay: 240 * time.Hour,
-		ClientPresenceUpdateInterval: 240 * time.Hour})
+		ClientPresenceUpdateInterval: 240 * time.Hour, ClientTimerScheduler: s.tsched})
 	if err != nil {
 		panic(err)
 	}
@@ -275,7 +302,25 @@ func (s *verifC08Scn) actor(name string, after *atomic.Value) {
 		_ = s.client.close(DisconnectForceNoReconnect)
 	case "E":
 		_ = s.closeFn()
-	case "T":
+	case "T", "T2":
+		// the presence timer expires: fire the client's pending timer if it is armed for a
+		// presence tick (with a TimerScheduler the tick itself runs on its own goroutine)
+		s.client.mu.Lock()
+		isPresence := s.client.timerOp == timerOpPresence && s.client.status != statusClosed
+		tc := s.client.timerCanceler
+		s.client.mu.Unlock()
+		if t, ok := tc.(*verifC08Timer); ok && t != nil && isPresence {
+			s.tsched.mu.Lock()
+			fire := !t.canceled && !t.fired
+			t.fired = true
+			s.tsched.mu.Unlock()
+			if fire {
+				s.ev("timer-fired")
+				t.cb()
+			}
+		}
+	case "D":
+		// a tick goroutine that is already past the timer (Client.updatePresence called directly)
 		s.client.updatePresence()
 		s.client.updatePresence()
 	case "U":
